@@ -16,6 +16,7 @@ mod common;
 mod c01;
 mod c02;
 mod c19;
+mod c20;
 mod civ;
 mod tzcorpus;
 mod tzd;
@@ -23,6 +24,9 @@ mod tzread;
 mod zd;
 
 use common::Args;
+
+#[global_allocator]
+static ALLOC: c20::Tracking = c20::Tracking;
 use std::path::PathBuf;
 
 fn main() {
@@ -63,6 +67,8 @@ fn dispatch(driver: &str, a: &Args) {
         "c03" => tzd::run_c03(&a),
         "c07" => civ::run_c07(&a),
         "c19replay" => c19::run_replay(&a),
+        "c20" => c20::run(&a),
+        "c20fixed" => c20::run_fixed(&a),
         "c19stress" => c19::run_stress(&a),
         "c06" | "c07z" | "c10z" | "c13" => zd::run_zoned(&a, driver),
         "c08" => civ::run_c08(&a),
